@@ -364,10 +364,8 @@ def nontrivial(case, rows):
 
 
 def classify(case, k, row):
-    # known finding F-C19-stride-undefined-members: class = every `stride_members` line (the members
-    # required_span_size / is_exhaustive of layout_stride::mapping are declared but not defined)
-    if case.lines[k].startswith("stride_members") and "undefined" in row.impl:
-        return "F-C19-stride-undefined-members"
+    # no known (unfixed) finding: F-C19-stride-undefined-members is fixed (the members are defined); if a
+    # definition disappears again the harness prints `undefined` and the case is a violation
     return None
 
 
